@@ -13,25 +13,25 @@ pub fn run_check(prop: &str, thorough: bool, seed: u64) -> Option<Report> {
         "C12" => {
             let mut rep = Report::new("C12", tier, seed, "sequences of 4-40 nominate / revoke / accept / admin-only-probe / clock steps by 5 principals (the current admin plus 4 fixed accounts), the clock aligned to 7d-1s / 7d / 7d+1s after the latest nomination; the identical sequence runs against the staking and the treasury contract; non-trivial = a re-nomination, revocation or completed handover AND an acceptance attempt by the nominee exactly at or one second before the earliest time; distinct by step-trace hash");
             rep.assumptions = vec!["staking admin observed through an admin-only probe (FeeWithdraw 0 => authorization error iff not admin) and State.pending_owner; treasury admin through its Config query".into()];
-            rep.absorb(crate::props_treasury::check_c12(if thorough { 200_000 } else { 6_000 }, seed));
+            rep.absorb(crate::props_treasury::check_c12(if thorough { 2_000_000 } else { 30_000 }, seed));
             Some(rep)
         }
         "C13" => {
             let mut rep = Report::new("C13", tier, seed, "treasury instances with allow-lists of 0-5 routes (1-4 hops over 5 denoms, small pool ids so coincidences are common) and 1-25 ops: swaps whose candidate route is an exact copy, prefix, suffix, reversal, concatenation or one-field edit of an allowed route, spends to 8 receiver shapes with/without channel, config updates, by admin/trader/strangers; non-trivial = an accepted swap or a trader's candidate derived from an allowed route and rejected; distinct by op-trace hash");
             rep.assumptions = vec!["emitted Osmosis messages decoded with the harness's own protobuf reader (field numbers from the upstream .proto)".into()];
-            rep.absorb(crate::props_treasury::check_c13(if thorough { 2_000_000 } else { 40_000 }, seed));
+            rep.absorb(crate::props_treasury::check_c13(if thorough { 5_000_000 } else { 100_000 }, seed));
             Some(rep)
         }
         "C08" => {
             let mut rep = Report::new("C08", tier, seed, "reachable state from a generated history of 15-60 ops (with ownership handovers, config changes, refundable packets, submitted and received batches), then up to 18 message variants x 11-13 principals (admin, former admin, nominee, initial admin, monitors, staker/reward hook accounts and their wrong-channel / wrong-sender / wrong-prefix counterparts, the contract itself, a user), each on its own copy of the state; non-trivial = a state in which some message is denied to an unentitled principal while the same message succeeds for the rightful one; distinct by history+matrix hash");
             rep.assumptions = crate::props::history_assumptions();
-            rep.absorb(crate::props_c08::check_c08(if thorough { 5_000 } else { 300 }, seed));
+            rep.absorb(crate::props_c08::check_c08(if thorough { 50_000 } else { 1_500 }, seed));
             Some(rep)
         }
         "C10" => {
             let mut rep = Report::new("C10", tier, seed, "generated history (0-45 ops incl. breaker/resume by admin, monitors and others), then the breaker is tripped by the admin or a monitor (or a freshly instantiated contract is taken), then 6-14 probes of the six value-moving operations: each probe is constructed and executed on a resumed copy and the identical transaction re-submitted on the halted copy; non-trivial = a probe that succeeds on the resumed copy (so a lost guard would be visible); distinct by history+probe hash. Halting/resuming raw-storage diffs are compared in every history");
             rep.assumptions = crate::props::history_assumptions();
-            rep.absorb(crate::props_c10::check_c10(if thorough { 20_000 } else { 1_000 }, seed));
+            rep.absorb(crate::props_c10::check_c10(if thorough { 200_000 } else { 5_000 }, seed));
             Some(rep)
         }
         "C19" => Some(check_c19(thorough, seed)),
@@ -42,7 +42,7 @@ pub fn run_check(prop: &str, thorough: bool, seed: u64) -> Option<Report> {
                 "a migration is one atomic transaction: the only crash behaviour is full rollback, which the refusal branch covers (stated, not simulated)".into(),
                 "operability after upgrade checked only for stores whose keys equal the packet sequence (what the 1.0.0 contract wrote) and whose refundable sum fits the amount domain".into(),
             ];
-            rep.absorb(crate::props_c18::check_c18(if thorough { 300_000 } else { 6_000 }, seed));
+            rep.absorb(crate::props_c18::check_c18(if thorough { 1_000_000 } else { 30_000 }, seed));
             Some(rep)
         }
         "C14" => {
@@ -51,7 +51,7 @@ pub fn run_check(prop: &str, thorough: bool, seed: u64) -> Option<Report> {
                 "well-formedness judged on what the Config query returns, with the harness's own bech32 decoder; upper-case and bech32m spellings count as checksum-valid (DESIGN 1.1)".into(),
                 "converse (valid => accepted) asserted only for configurations built by the valid generator".into(),
             ];
-            rep.absorb(crate::props_config::check_c14(if thorough { 2_000_000 } else { 40_000 }, seed));
+            rep.absorb(crate::props_config::check_c14(if thorough { 5_000_000 } else { 100_000 }, seed));
             Some(rep)
         }
         _ => None,
@@ -75,7 +75,31 @@ pub fn replay(prop: &str, file: &str) -> i32 {
         }
     };
     let case_v = v.get("case").cloned().unwrap_or(v.clone());
+    if let (true, Ok(hc)) = (case_v.get("calls").is_some(), serde_json::from_value::<crate::props_extra::HostileCase>(case_v.clone())) {
+        let mut scratch = Agg::default();
+        return match crate::props_extra::check_hostile(&hc, &mut scratch) {
+            Ok(()) => {
+                println!("replay passed: no violation of {prop}");
+                0
+            }
+            Err(m) => {
+                println!("{m}");
+                println!("VIOLATION property={prop} replay={file}");
+                1
+            }
+        };
+    }
     if let (true, Ok(case)) = (case_v.get("setup").is_some(), serde_json::from_value::<Case>(case_v.clone())) {
+        if prop == "C15" || prop == "C05" {
+            // the differential / metamorphic oracles use the same case format: run them too
+            let mut scratch = Agg::default();
+            let r = if prop == "C15" { crate::props_extra::check_c15_diff(&case, &mut scratch) } else { crate::props_extra::check_c05_perm(&case, &mut scratch) };
+            if let Err(m) = r {
+                println!("{m}");
+                println!("VIOLATION property={prop} replay={file}");
+                return 1;
+            }
+        }
         if prop == "C19" && cfg!(feature = "miniwasm") {
             return replay_c19(file, &case);
         }
@@ -144,7 +168,7 @@ fn check_c19(thorough: bool, seed: u64) -> Report {
     rep.assumptions = crate::props::history_assumptions();
     rep.assumptions.push("the two builds are separate binaries of the same harness sources (cargo features cannot coexist in one binary); both are rebuilt from /repo's tree by ./check".into());
     let p = crate::props_c19::profile();
-    let n_hist = if thorough { 10_000 } else { 600 };
+    let n_hist = if thorough { 50_000 } else { 1_500 };
     rep.absorb(run_histories("C19", &p, n_hist, seed, 19, crate::props_c19::nontrivial));
     if cfg!(feature = "miniwasm") {
         // running as the sub-process: only the histories of this build
@@ -180,7 +204,7 @@ fn check_c19(thorough: bool, seed: u64) -> Report {
         }
     }
     // (3) differential traces
-    let n = if thorough { 10_000 } else { 600 };
+    let n = if thorough { 50_000 } else { 1_500 };
     let cases = crate::props_c19::cases_for(seed, n);
     let other = std::process::Command::new(MW_BIN).args(["traces", &seed.to_string(), &n.to_string()]).output();
     let other = match other {
